@@ -1107,3 +1107,67 @@ def huge_streams(rng):
         sts.append(Stream("huge:cap%d" % cap, ops, history=True, nomodel=True,
                           note="%d keys, homes up to %d" % (len(keys), max(home(k, cap) for k in keys))))
     return sts
+
+
+# ------------------------------------------------------------------ truncated keys told apart by the digest only
+
+# two C-string keys `<16-byte prefix><16 hex digits>` (33 bytes with the terminator, as put()/get() hash them)
+# whose MD5 digests agree in their FIRST 8 bytes / in their LAST 8 bytes: the same length, the same first 16
+# bytes, the same home slot in tables of the listed size - a comparison of part of the stored digest takes
+# them for one key. Found by checks/md5half.c (16 threads, distinguished points; about 2^32 digests per
+# pair: 11 s .. 92 s), verified with hashlib at start-up; the search is never needed at check time.
+MD5_HALF_PAIRS = [
+    ("first", b"qhasharr-md5-keA07e767eab6234b6f", b"qhasharr-md5-keA6fb6e5f63fc6aa65"),
+    ("first", b"qhasharr-md5-key4c5bdf28a3e49399", b"qhasharr-md5-keycfcf380b3680f8d9"),   # no common home below 790137371 slots
+    ("last", b"qhasharr-md5-keyc6237130775dc799", b"qhasharr-md5-key4214d46b8bd83e9d"),
+]
+for _half, _a, _b in MD5_HALF_PAIRS:
+    _da, _db = hashlib.md5(_a + b"\0").digest(), hashlib.md5(_b + b"\0").digest()
+    assert _a != _b and len(_a) == len(_b) == 32 and _a[:16] == _b[:16] and _da != _db, (_a, _b)
+    assert (_da[:8] == _db[:8]) if _half == "first" else (_da[8:] == _db[8:]), (_a, _b)
+
+
+def search_md5_half_pair(half, prefix=b"qhasharr-md5-key"):
+    """(re)run the search: builds checks/md5half.c into build/ and caches its output there"""
+    import subprocess
+    exe = os.path.join(vlib.BUILD, "md5half")
+    out = os.path.join(vlib.BUILD, "md5half-%s-%s.txt" % (half, prefix.decode()))
+    if not os.path.exists(out):
+        os.makedirs(vlib.BUILD, exist_ok=True)
+        subprocess.run(["gcc", "-O2", "-pthread", os.path.join(vlib.ROOT, "checks", "md5half.c"), "-o", exe], check=True)
+        r = subprocess.run([exe, half, prefix.decode(), str(os.cpu_count() or 4)], capture_output=True, text=True, check=True)
+        open(out, "w").write(r.stdout)
+    w = open(out).read().split()
+    return half, w[0].encode(), w[1].encode()
+
+
+def shared_home_cap(a, b, lo=3, hi=4000):
+    """smallest table size in which the string keys a and b (hashed with their terminator) have the same home slot"""
+    ha, hb = murmur3_32(a + b"\0"), murmur3_32(b + b"\0")
+    for n in range(lo, hi):
+        if ha % n == hb % n:
+            return n
+    return None
+
+
+def digest_pair_ops(a, b, cap, rng, sput=op_sput, sget=op_sget, srm=op_srm, init=None, extra=("walk", "size")):
+    """both insertion orders; put / get / replace / remove / walk"""
+    ops = []
+    for x, y in ((a, b), (b, a)):
+        ops.append(init if init is not None else op_init(cap))
+        ops += [sput(x, b"value of the first"), sget(x), sget(y), sput(y, b"value of the second key, two slots long"), sget(x), sget(y)]
+        ops += list(extra)
+        ops += [sput(x, b"REPLACED"), sget(x), sget(y), sput(y, mkval(rng, 33)), sget(x), sget(y)] + list(extra)
+        ops += [srm(x), sget(x), sget(y)] + list(extra) + [srm(y), sget(y), srm(x)] + list(extra)
+        ops += [sput(y, b"again"), sput(x, b"again too"), srm(y), sget(x), sget(y)] + list(extra)
+    return ops
+
+
+def digest_streams(rng, tier):
+    sts = []
+    for half, a, b in MD5_HALF_PAIRS:
+        cap = shared_home_cap(a, b)
+        if cap is None:
+            continue
+        sts.append(Stream("digest-%s-half:cap%d" % (half, cap), digest_pair_ops(a, b, cap, rng), history=True))
+    return sts
